@@ -230,6 +230,21 @@ class Actor(object):
                 sec = io.section()
                 sec.write_line(st[1])
                 sec.output.overwrite(st[2])
+            elif k == "indicator":
+                from clikit.ui.components import ProgressIndicator
+                ind = ProgressIndicator(io, interval=0)
+                ind.start("spin start")
+                ind.advance()
+                ind.set_message("spin more")
+                ind.finish("spin done")
+            elif k == "progress":
+                from clikit.ui.components import ProgressBar
+                bar = ProgressBar(io, 3, 0)
+                bar.start()
+                bar.advance()
+                bar.advance(2)
+                bar.finish()
+                io.error_line("")
             elif k == "readline":
                 rec.setdefault("lines", []).append(io.read_line(default=st[1]))
             elif k == "deep":
@@ -243,10 +258,16 @@ class Actor(object):
                 exc = make_exception(st[1]) if isinstance(st[1], dict) else st[1]
                 if st[1] == "KeyboardInterrupt":
                     raise KeyboardInterrupt()
+                if st[1] == "RecursionError-real":
+                    return self._forever(0)
                 if self.raiser is not None:
                     self.raiser(exc)
                 raise exc
         return _NOTHING
+
+    def _forever(self, n):
+        # real unbounded recursion: the interpreter raises RecursionError somewhere down here
+        return self._forever(n + 1) + 1
 
     def _deep(self, n, steps, args, io, rec):
         if n > 0:
